@@ -98,6 +98,23 @@ class S3LockProviderBase(LockProvider):
         self._etag: Optional[str] = None
         self._state_lock = threading.Lock()
 
+    def _lock_body(self) -> bytes:
+        """Content for a write of the lock object: owner id + a per-write nonce.
+
+        The ETag of an S3 object is derived from its content. Writing the bare
+        owner id on every renewal left the ETag unchanged, so a contender that
+        had observed the lock as expired could still land its `If-Match`
+        takeover AFTER the holder's renewal: the precondition could not tell
+        the renewed object from the expired one, and a lock that was 0 s old
+        was taken over. The nonce makes every write a distinct version.
+        """
+        return f"{self.lock_id}\n{uuid.uuid4().hex}".encode("utf-8")
+
+    @staticmethod
+    def _owner_of(content: str) -> str:
+        """Owner id stored in a lock object (first line; the rest is a nonce)."""
+        return content.split("\n", 1)[0]
+
     def acquire(self) -> bool:
         start_time = time.time()
         while True:
@@ -144,7 +161,7 @@ class S3LockProviderBase(LockProvider):
             try:
                 resp = self.s3.get_object(Bucket=self.bucket, Key=self.key)
                 content = resp['Body'].read().decode('utf-8')
-                if content != self.lock_id:
+                if self._owner_of(content) != self.lock_id:
                     self.is_locked = False
                     return False
                 return True
@@ -206,7 +223,7 @@ class S3LockProviderBase(LockProvider):
             resp = self.s3.get_object(Bucket=self.bucket, Key=self.key)
             content = resp['Body'].read().decode('utf-8')
 
-            if content == self.lock_id:
+            if self._owner_of(content) == self.lock_id:
                 self.s3.delete_object(Bucket=self.bucket, Key=self.key)
             else:
                 logger.warning(f"Skipping release of S3 lock at {self.key}: Lock owner changed (expected {self.lock_id}, got {content})")
@@ -248,7 +265,7 @@ class S3LockProvider(S3LockProviderBase):
             resp = self.s3.put_object(
                 Bucket=self.bucket,
                 Key=self.key,
-                Body=self.lock_id.encode('utf-8'),
+                Body=self._lock_body(),
                 IfNoneMatch='*'
             )
             with self._state_lock:
@@ -292,7 +309,7 @@ class S3LockProvider(S3LockProviderBase):
             put_resp = self.s3.put_object(
                 Bucket=self.bucket,
                 Key=self.key,
-                Body=self.lock_id.encode('utf-8'),
+                Body=self._lock_body(),
                 IfMatch=etag,
             )
             with self._state_lock:
@@ -319,7 +336,7 @@ class S3LockProvider(S3LockProviderBase):
             resp = self.s3.put_object(
                 Bucket=self.bucket,
                 Key=self.key,
-                Body=self.lock_id.encode('utf-8'),
+                Body=self._lock_body(),
                 IfMatch=etag,
             )
             with self._state_lock:
@@ -405,7 +422,7 @@ class S3PollingLockProvider(S3LockProviderBase):
             resp = self.s3.get_object(Bucket=self.bucket, Key=self.key)
             content = resp['Body'].read().decode('utf-8')
 
-            if content == self.lock_id:
+            if self._owner_of(content) == self.lock_id:
                 self._lease_deadline = write_started + self.lease_seconds
                 return True
             else:
@@ -442,7 +459,7 @@ class S3PollingLockProvider(S3LockProviderBase):
             resp = self.s3.get_object(Bucket=self.bucket, Key=self.key)
             content = resp['Body'].read().decode('utf-8')
 
-            if content != self.lock_id:
+            if self._owner_of(content) != self.lock_id:
                 logger.warning(f"Lost S3 lock at {self.key} (content mismatch). Stopping heartbeat.")
                 self.is_locked = False
                 return
